@@ -869,6 +869,10 @@ func vc02Judge(t *rapid.T, env *vc02Env, e *vc02Exch) (classes []string, nt stri
 		classes = append(classes, "edge-host-root-or-tld")
 	}
 
+	if eff.OwnAllowEqualsShared(host, qt) {
+		classes = append(classes, "own-allow-equals-shared-allow-with-safety-match")
+	}
+
 	// Would the verdict differ if every slot of the world were in effect?
 	if eff != nil {
 		if vc02ref.OutcomesString(env.w.All().EvalRequest(host, qt)) != vc02ref.OutcomesString(reqOuts) {
@@ -891,7 +895,8 @@ func TestVerifC02Shape(t *testing.T) {
 		"blocked-by-response", "req-allowed-resp-would-block", "cname-rewrite-resp-would-block", "rewrite-cname", "rewrite-ip", "rewrite-rcode",
 		"filtering-off-profile", "filtering-off-device", "anonymous-group-config", "profile-config", "blocked-over-nonempty-upstream",
 		"flag-off-hides-slot", "safety-verdict", "later-question-on-same-stack", "same-question-other-requester", "same-question-other-requester-blocked",
-		"identical-repeat", "near-miss-qtype", "near-miss-host", "concurrent-request", "concurrent-same-question-blocked", "edge-host-root-or-tld")
+		"identical-repeat", "near-miss-qtype", "near-miss-host", "concurrent-request", "concurrent-same-question-blocked", "edge-host-root-or-tld",
+		"own-allow-equals-shared-allow-with-safety-match")
 	st.Finish(t)
 
 	base := t.TempDir()
